@@ -1,5 +1,11 @@
 import CLModel.Proto
 import CLModel.Compare.Content
+import CLModel.Compare.Session
+import CLModel.Compare.FluentEnt
+import CLModel.Ops.C04
+import CLModel.Ops.C05
+import CLModel.Ops.C08
+import CLModel.Ops.C10
 namespace Ops.C03
 open Proto Cmp
 
@@ -120,6 +126,226 @@ def opWords (toks : List String) : String :=
     | none => "bad-args"
   | _ => "bad-args"
 
+/-! ### round 4: one comparer, a sequence of jobs (CLModel/Compare/Session.lean)
+
+`c03.sess <quiet> F <nfiles> (<file> <module|-> <locale|->)*
+          O <nobs> (N | R <n> (<fileidx|*> <data|*> <e|w|i>)*)*
+          J <njobs> job*`
+  job := cmp <refidx> <l10nidx> <merge 0|1> body | add <origidx> <missingidx> <merge> abody | rm <refidx> <l10nidx> <merge>
+  body  := np | re <text> | le <text>
+         | en <nref> <nl10n> entity*(nref+nl10n) <nmsgs> <text>* <nchecks> (<key> <n> (<e|w> <text>)*)*
+         | tx <fmt> <ref text> <l10n text>
+  abody := np | re <caps> <text> | en <caps> <n> entity*n | tx <fmt> <text>
+result: `ok m=<merge outcome>,… |L <list's own observer> |O <project observer>…` (observers as in `obs`) -/
+
+open Ops.C10 (P tok nat text optText many counted expect pFile pData pRet showObs) in
+section
+def pEnts (n : Nat) : P (List Ent) := do
+  match parseEnts n (← get) with
+  | some (es, rest) => set rest; pure es
+  | none => failure
+
+def pKey : P Key := do
+  match parseKey (← tok) with
+  | some k => pure k
+  | none => failure
+
+def pFmt : P P.Fmt := do
+  match Ops.C05.parseFmt (← tok) with
+  | some f => pure f
+  | none => failure
+
+def pFileIdx (files : List ObsM.File) : P ObsM.File := do
+  match files[(← nat)]? with
+  | some f => pure f
+  | none => failure
+
+def pRule (files : List ObsM.File) : P Sess.Rule := do
+  let ft ← tok
+  let f ← (if ft == "*" then pure none else
+    match parseNat ft with
+    | some i => (match files[i]? with | some f => pure (some f) | none => failure)
+    | none => failure)
+  -- `*` = any entity argument
+  let d ← (do
+    match (← get) with
+    | "*" :: rest => set rest; pure none
+    | _ => let d ← pData; pure (some d))
+  let r ← pRet
+  pure { file := f, data := d, ret := r }
+
+def pSessFilter (files : List ObsM.File) : P (Option ObsM.Filter) := do
+  match (← tok) with
+  | "N" => pure none
+  | "R" =>
+    let rules ← counted (pRule files)
+    pure (some (Sess.filterOfRules rules))
+  | _ => failure
+
+def pCheck : P (Bool × List Nat) := do
+  let s ← tok
+  let t ← text
+  if s == "e" then pure (true, t) else if s == "w" then pure (false, t) else failure
+
+def pCmpBody : P Sess.CmpBody := do
+  match (← tok) with
+  | "np" => pure .noParser
+  | "re" => let m ← text; pure (.refReadError m)
+  | "le" => let m ← text; pure (.l10nReadError m)
+  | "en" =>
+    let nr ← nat
+    let nl ← nat
+    let ref ← pEnts nr
+    let l10n ← pEnts nl
+    let msgs ← counted text
+    let checks ← counted (do let k ← pKey; let cs ← counted pCheck; pure (k, cs))
+    pure (.ents { ref := ref, l10n := l10n, msgs := msgs, checks := checks })
+  | "tx" =>
+    let f ← pFmt
+    let r ← text
+    let l ← text
+    pure (.text f r.toArray l.toArray)
+  | _ => failure
+
+def pAddBody : P Sess.AddBody := do
+  match (← tok) with
+  | "np" => pure .noParser
+  | "re" => let c ← nat; let m ← text; pure (.readError c m)
+  | "en" => let c ← nat; let n ← nat; let es ← pEnts n; pure (.ents c es)
+  | "tx" => let f ← pFmt; let r ← text; pure (.text f r.toArray)
+  | _ => failure
+
+def pJob (files : List ObsM.File) : P Sess.Job := do
+  match (← tok) with
+  | "cmp" =>
+    let r ← pFileIdx files
+    let l ← pFileIdx files
+    let m ← nat
+    let b ← pCmpBody
+    pure (.compare r l (m != 0) b)
+  | "add" =>
+    let r ← pFileIdx files
+    let l ← pFileIdx files
+    let m ← nat
+    let b ← pAddBody
+    pure (.add r l (m != 0) b)
+  | "rm" =>
+    let r ← pFileIdx files
+    let l ← pFileIdx files
+    let m ← nat
+    pure (.remove r l (m != 0))
+  | _ => failure
+
+def opSess (toks : List String) : String :=
+  let p : P (Nat × List (Option ObsM.Filter) × List Sess.Job) := do
+    let q ← nat
+    expect "F"
+    let files ← counted pFile
+    expect "O"
+    let filters ← counted (pSessFilter files)
+    expect "J"
+    let jobs ← counted (pJob files)
+    pure (q, filters, jobs)
+  match p.run toks with
+  | some ((q, filters, jobs), []) =>
+    let l0 := ObsM.ObsList.init q (filters.map (ObsM.Obs.init q))
+    match Sess.run l0 jobs with
+    | .error e => "raise " ++ e.name
+    | .ok (l, outcomes) =>
+      "ok m=" ++ ",".intercalate (outcomes.map Ops.C04.showOutcome) ++ " |L " ++ showObs l.own ++
+        String.join (l.observers.map (fun o => " |O " ++ showObs o))
+  | _ => "bad-args"
+end
+
+/-! ### round 4: Fluent `count_words` / `equals` on the fluent.syntax AST (CLModel/Compare/FluentEnt.lean)
+
+entries in the wire format of Ops/C08.lean.
+`c03.ftlwords <entry>`                 → `FluentEntity.count_words()`
+`c03.ftleq <entry a> <entry b>`        → `a.equals(b)`, `b.equals(a)`, and `FluentAttribute.equals` of the attributes paired by position
+`c03.ftlcmp <nref> <nl10n> item* [<key> <verdict>]*`, item := `J <key> <msg>` | `E <key> <entry>` → as `c03.cmp` -/
+
+def showBool (b : Bool) : String := if b then "1" else "0"
+
+def opFtlWords (toks : List String) : String :=
+  match Ops.C08.pEntry toks with
+  | some (e, []) => toString (FtlC.countWords e)
+  | _ => "bad-args"
+
+def opFtlEq (toks : List String) : String :=
+  match Ops.C08.pEntry toks with
+  | some (a, rest) =>
+    match Ops.C08.pEntry rest with
+    | some (b, []) =>
+      let attrs := (List.zip (FtlC.entAttrs a) (FtlC.entAttrs b)).map (fun p => showBool (FtlC.eqAttr p.1 p.2))
+      s!"{showBool (FtlC.equals a b)} {showBool (FtlC.equals b a)} [{",".intercalate attrs}]"
+    | _ => "bad-args"
+  | none => "bad-args"
+
+def pItems : Nat → List String → Option (List FtlC.Item × List String)
+  | 0, rest => some ([], rest)
+  | n + 1, "J" :: k :: m :: rest => do
+    let k ← parseKey k
+    let m ← parseNat m
+    let (r, rest) ← pItems n rest
+    pure (.junk k m :: r, rest)
+  | n + 1, "E" :: k :: rest => do
+    let k ← parseKey k
+    let (e, rest) ← Ops.C08.pEntry rest
+    let (r, rest) ← pItems n rest
+    pure (.ent k none e :: r, rest)
+  | _, _ => none
+
+def opFtlCmp (toks : List String) : String :=
+  match toks with
+  | nr :: nl :: rest =>
+    match parseNat nr, parseNat nl with
+    | some nr, some nl =>
+      match pItems nr rest with
+      | some (ref, rest) =>
+        match pItems nl rest with
+        | some (l10n, rest) =>
+          match parseVerdicts rest with
+          | some vs =>
+            let verdict (k : Key) : Verdict :=
+              match vs.find? (fun p => p.1 == k) with
+              | some p => p.2
+              | none => .error
+            match FtlC.compareFluent ref l10n verdict with
+            | .ok r => showReport r
+            | .error e => showErr e
+          | none => "bad-args"
+        | none => "bad-args"
+      | none => "bad-args"
+    | _, _ => "bad-args"
+  | _ => "bad-args"
+
+/-- `c03.keyed <n> entity*n <probe>`, probe := `k <key>` | `o <i>` | `i <int>` | `u` → `<contains 0|1> <getitem: item i | TypeError | IndexError>` -/
+def opKeyed (toks : List String) : String :=
+  match toks with
+  | n :: rest =>
+    match parseNat n with
+    | some n =>
+      match parseEnts n rest with
+      | some (es, probe) =>
+        let pr : Option Sess.Probe := match probe with
+          | ["k", k] => (parseKey k).map Sess.Probe.key
+          | ["o", i] => (parseNat i).map Sess.Probe.item
+          | ["i", i] => (parseInt i).map Sess.Probe.index
+          | ["u"] => some .unhashable
+          | _ => none
+        match pr with
+        | some pr =>
+          let g := match Sess.keyedGetProbe es pr with
+            | .item i => s!"item {i}"
+            | .typeError => "TypeError"
+            | .indexError => "IndexError"
+          s!"{showBool (Sess.keyedContainsProbe es pr)} {g}"
+        | none => "bad-args"
+      | none => "bad-args"
+    | none => "bad-args"
+  | _ => "bad-args"
+
 def ops : List (String × (List String → String)) :=
-  [("c03.cmp", opCmp), ("c03.add", opAdd), ("c03.words", opWords)]
+  [("c03.cmp", opCmp), ("c03.add", opAdd), ("c03.words", opWords), ("c03.sess", opSess), ("c03.keyed", opKeyed),
+   ("c03.ftlwords", opFtlWords), ("c03.ftleq", opFtlEq), ("c03.ftlcmp", opFtlCmp)]
 end Ops.C03
